@@ -313,6 +313,12 @@ def c18() -> int:
     return c.finish()
 
 
+def _c19_linear(args):
+    from .w_log import linear_cross_check
+
+    return linear_cross_check(*args)
+
+
 def c19() -> int:
     c = Check("C19", "explicit-state BFS of the real step function with the real file-writing handlers installed; event.log lines parsed back after every transition")
     c.assumptions += ["per-transition agreement between log lines and state deltas; whole-run sums follow by induction over paths",
@@ -323,6 +329,18 @@ def c19() -> int:
         ("hivemc.bundles", "c19", {}), K=2 if quick else 3, H=7 if quick else 9, needs=needs)
     fsx(c, ("hivemc.w_log", "make_req", {}), ("hivemc.bundles", "c19", {}), K=3 if quick else 4, H=8 if quick else 10, needs=["c19:pickup", "c19:dropoff"])
     fsx(c, ("hivemc.w_log", "make_req", {"requests": ["p0", "p1", "r2"], "name": "W-req/pooling/log"}), ("hivemc.bundles", "c19", {}), K=2 if quick else 3, H=8 if quick else 10, needs=["c19:pickup"])
+    # end-to-end cross-check: scenarios loaded by load_scenario (handlers installed by the library), run linearly, whole-run sums
+    from .enumrun import pmap
+    from .report import Finding
+    from .w_log import linear_cross_check
+
+    runs = [("S1", 25), ("S2", 30), ("S3", 35), ("S6", 120 if quick else 360)] + ([] if quick else [("S5", 360)])
+    for (sc, n), (stats, bad) in zip(runs, pmap(_c19_linear, runs)):
+        c.coverage.setdefault("linear_cross_checks", []).append(dict(stats, scenario=sc, steps=n))
+        for clause, msg in bad[:3]:
+            c.add(Finding("C19", (clause, "linear", sc), msg, {"engine": "w_log", "scenario": sc, "steps": n}))
+        if not stats.get("lines"):
+            c.vacuous.append(f"linear:{sc}: empty event.log")
     return c.finish()
 
 
